@@ -50,7 +50,7 @@ inductive GStep
   | loadDeps (isProduct : Bool) | loadProds (isProduct needsParam : Bool) | call | parseDefined (raisesIfNone : Bool)
   | collectEach | raiseOnCollectFail | extendTasks | modifyTasks | recreate (c : RCond) | ret (v : Bool)
 deriving Repr, DecidableEq
-inductive TStep | setDag | renewSkipMarks | setScheduler
+inductive TStep | setDag | renewSkipMarks | renewFailMarks | setScheduler
 deriving Repr, DecidableEq
 inductive XStep | appendFailReport | setShouldStop
 deriving Repr, DecidableEq
@@ -432,6 +432,36 @@ def _check_renew_skip_marks():
             raise _err(f"_skip_descendants_of_skipped_tasks: attaches the mark {_u(n.args[0])}")
 
 
+def _check_renew_fail_marks():
+    """`_skip_descendants_of_failed_tasks` (fix ee6b73e, finding F37): for every execution report whose outcome is FAIL, every task in
+    `descending_tasks(report.task.signature, session.dag)` that has no `skip_ancestor_failed` mark gets one."""
+    fn = _top_func("provisional_utils.py", "_skip_descendants_of_failed_tasks")
+    loops = [st for st in _body(fn) if isinstance(st, ast.For)]
+    if len(loops) != 1 or any(not _no_effect(st) for st in _body(fn) if st is not loops[0]):
+        raise _err("_skip_descendants_of_failed_tasks: expected one loop over the execution reports")
+    lp = loops[0]
+    if _u(lp.iter) != "session.execution_reports" or not isinstance(lp.target, ast.Name):
+        raise _err(f"_skip_descendants_of_failed_tasks: loops over {_u(lp.iter)!r}")
+    r = lp.target.id
+    first = lp.body[0] if lp.body else None
+    ok = isinstance(first, ast.If) and _u(first.test) == f"{r}.outcome != TaskOutcome.FAIL" and len(first.body) == 1 and \
+        isinstance(first.body[0], ast.Continue) and not first.orelse
+    if not ok:
+        raise _err("_skip_descendants_of_failed_tasks: does not skip reports whose outcome is not FAIL")
+    inner = [st for st in lp.body[1:] if isinstance(st, ast.For)]
+    if len(inner) != 1 or len(lp.body) != 2 or _u(inner[0].iter) != f"descending_tasks({r}.task.signature, session.dag)":
+        raise _err("_skip_descendants_of_failed_tasks: expected one loop over descending_tasks(report.task.signature, session.dag)")
+    src = _u(inner[0])
+    if "has_mark(" not in src or "'skip_ancestor_failed'" not in src:
+        raise _err("_skip_descendants_of_failed_tasks: no has_mark(…, 'skip_ancestor_failed') guard")
+    marks = [n for n in ast.walk(lp) if isinstance(n, ast.Call) and _callee(n) == "Mark"]
+    if len(marks) != 1 or _u(marks[0].args[0]) != "'skip_ancestor_failed'":
+        raise _err("_skip_descendants_of_failed_tasks: does not attach exactly the mark 'skip_ancestor_failed'")
+    for n in ast.walk(lp):
+        if isinstance(n, ast.Attribute) and isinstance(n.ctx, ast.Store):
+            raise _err("_skip_descendants_of_failed_tasks: stores to an attribute")
+
+
 def _recreate():
     fn = _top_func("provisional_utils.py", "recreate_dag")
     stmts = _body(fn)
@@ -475,6 +505,13 @@ def _recreate():
                 [_u(a) for a in st.value.args] == ["session"] and not st.value.keywords and "session.dag" in new_dag_names:
             _check_renew_skip_marks()
             steps.append(("renewSkipMarks",))
+            continue
+        # fix ee6b73e (finding F37): likewise the `skip_ancestor_failed` marks below tasks whose outcome is FAIL are renewed in the
+        # new DAG. M7 has fail marks: the interpreter adds them (`Sess.renewed`).
+        if isinstance(st, ast.Expr) and _callee(st.value) == "_skip_descendants_of_failed_tasks" and \
+                [_u(a) for a in st.value.args] == ["session"] and not st.value.keywords and "session.dag" in new_dag_names:
+            _check_renew_fail_marks()
+            steps.append(("renewFailMarks",))
             continue
         raise _err(f"recreate_dag: unrecognised statement in try {_u(st)[:100]!r}")
     h = tr.handlers[0]
